@@ -39,7 +39,7 @@ func refKey(i int) *ref.DSAKey {
 
 func newMix(cfg SessCfg, polA int) *Mix {
 	m := &Mix{}
-	m.A = sim.NewParty(sim.PartyOpts{Name: "A", Seed: cfg.SeedA, Pol: cfg.pol() | polA, KeyI: cfg.KeyA, Frag: cfg.FragA, NoErrH: cfg.NoErrH})
+	m.A = sim.NewParty(sim.PartyOpts{Name: "A", Seed: cfg.SeedA, Pol: cfg.pol() | polA, KeyI: cfg.KeyA, Frag: cfg.FragA, NoErrH: cfg.NoErrH, ShortKeys: cfg.SkA})
 	m.RRand = sim.NewRand(cfg.SeedB)
 	rnd := func(n int) []byte { b := make([]byte, n); m.RRand.Read(b); return append([]byte{}, b...) }
 	m.R = ref.NewParty(uint16(cfg.V), refKey(cfg.KeyB), rnd)
@@ -170,12 +170,50 @@ func (m *Mix) Establish(starter int) bool {
 type IopScript struct {
 	Cfg SessCfg `json:"cfg"`
 	Ops []SOp   `json:"ops"`
+	WS  int     `json:"ws,omitempty"` // the reference opens with a whitespace-tagged text: 1 v1+v2+v3, 2 v2+v3, 3 v1+v2, 4 v3, 5 v1+v3
 }
 
 func runC10Interop(sc *IopScript) *sim.Outcome {
 	o := &sim.Outcome{}
-	m := newMix(sc.Cfg, 0)
-	if !m.Establish(sc.Cfg.Starter) {
+	polA := 0
+	if sc.WS > 0 {
+		polA = sim.PolWSStart
+	}
+	m := newMix(sc.Cfg, polA)
+	if sc.WS > 0 {
+		// the specification's tag: the base, then one 8-byte group per version offered, version 1 first
+		groups := [][][]byte{nil, {ref.WSV1, ref.WSV2, ref.WSV3}, {ref.WSV2, ref.WSV3}, {ref.WSV1, ref.WSV2}, {ref.WSV3}, {ref.WSV1, ref.WSV3}}[sc.WS%6]
+		offered := map[int]bool{}
+		text := []byte("good morning")
+		in := append(append([]byte{}, text...), ref.WSBase...)
+		for _, g := range groups {
+			in = append(in, g...)
+			switch {
+			case bytes.Equal(g, ref.WSV2):
+				offered[2] = true
+			case bytes.Equal(g, ref.WSV3):
+				offered[3] = true
+			}
+		}
+		m.fromR(in)
+		c := m.DeliverToA()
+		if c == nil || !bytes.Equal(c.Plain, text) {
+			return o.Fail("C10/interop-whitespace", "a text carrying the specification's whitespace tag (form %d) was not returned with the tag removed", sc.WS)
+		}
+		if offered[sc.Cfg.V] {
+			if len(c.Out) == 0 {
+				return o.Fail("C10/interop-whitespace", "the reference offered version %d by whitespace tag (form %d: version 1 group first where present); otr3, which allows it and starts on tags, did not answer with a D-H Commit", sc.Cfg.V, sc.WS)
+			}
+			m.Settle(nil, nil)
+			if !m.A.C.IsEncrypted() || !m.R.Encrypted {
+				return o.Fail("C10/interop-ake", "key exchange started by the reference's whitespace tag did not complete")
+			}
+			o.Class("started-by-reference-tag")
+		} else if len(c.Out) != 0 {
+			return o.Fail("C10/interop-whitespace", "otr3 answered a whitespace tag that does not offer its version")
+		}
+	}
+	if !(m.A.C.IsEncrypted() && m.R.Encrypted) && !m.Establish(sc.Cfg.Starter) {
 		return o.Fail("C10/interop-ake", "key exchange between otr3 and the reference implementation did not complete (starter %d, v%d): otr3 encrypted=%v ref encrypted=%v ref errors=%v", sc.Cfg.Starter, sc.Cfg.V, m.A.C.IsEncrypted(), m.R.Encrypted, m.R.Errors)
 	}
 	ssid := m.A.C.GetSSID()
@@ -436,6 +474,9 @@ func TestProp_C10_Interop(t *testing.T) {
 	kinds := []string{"os", "os", "os", "rs", "rs", "rs", "do", "do", "dr", "dr", "settle", "settle", "smpo", "smpr", "xko", "xkr", "endr", "endo", "abortr"}
 	rapid.Check(t, func(rt *rapid.T) {
 		sc := &IopScript{Cfg: genSessCfg(rt)}
+		if rapid.IntRange(0, 2).Draw(rt, "tagstart") == 0 {
+			sc.WS = rapid.IntRange(1, 5).Draw(rt, "tagform")
+		}
 		if sc.Cfg.FragB > 0 && sc.Cfg.FragB < 8 {
 			sc.Cfg.FragB = 8
 		}
